@@ -31,7 +31,8 @@ def r_ndarray(c):
     # device arrays are keyed through their host copy, i.e. through the ndarray rule
     for meth in ("update_for_TaggableCLArray", "update_for_Array"):
         f2 = m.func(f"{KB}.{meth}")
-        c.check("self.rec(key_hash, key.get())" in ast.unparse(f2), "R18-NDARRAY",
+        c.check(f"self.rec({f2.args.args[1].arg}, {f2.args.args[2].arg}.get())"
+                in ast.unparse(f2), "R18-NDARRAY",
                 f"PytatoKeyBuilder.{meth}", "via-host-array", m.loc(m.module_of(f2), f2),
                 "device arrays are no longer keyed through their host ndarray")
 
@@ -146,9 +147,11 @@ def r_stable(c):
         raise AnalysisError(f"only {n} key updaters found (floor 4)")
     # the stateless reductions key by their type, and ==/hash agree with that
     ci = m.cls("pytato.reductions._StatelessReductionOperation")
-    src = ast.unparse(ci.node)
-    c.check("key_builder.rec(key_hash, type(self))" in src and "hash(type(self))" in src
-            and "type(self) is type(other)" in src, "R18-STABLE",
+    from pta.pat import has as phas
+    c.check(phas(ci.methods["update_persistent_hash"], "$kb.rec($kh, type($s))")
+            and phas(ci.methods["__hash__"], "return hash(type($s))")
+            and (phas(ci.methods["__eq__"], "return type($s) is type($o)")
+                 or phas(ci.methods["__eq__"], "return type($o) is type($s)")), "R18-STABLE",
             "_StatelessReductionOperation", "key-hash-eq-all-by-type",
             m.loc(ci.module, ci.node),
             "key, __hash__ and __eq__ of stateless reductions no longer all go by type")
